@@ -55,6 +55,11 @@ def values(ctx):
     _check(ctx, d)
 
 
+def twin_bundles(ctx):
+    stub_logging_str(ctx)
+    _check(ctx, DS.twin_bundles_doc(ctx))
+
+
 def structure(ctx):
     stub_logging_str(ctx)
     P = ctx.params
@@ -112,6 +117,10 @@ _FUNCS = ["prov.serializers.provjson.encode_json_document/encode_json_container/
           "prov.model.NamespaceManager.valid_qualified_name/add_namespace", "prov.model.ProvDocument.add_bundle"]
 
 OBLIGATIONS = [
+    Obligation(name="twin_bundles", fn=twin_bundles, shards=[{}],
+               desc="two sibling bundles binding the same prefix (and default namespace) to symbolic, possibly different URIs and using the same "
+                    "name strings, plus an optional empty bundle: decode(encode(d)) keeps every URI and every bundle",
+               bounds="2-3 bundles, one record each; URIs |u|<=3", assumptions=_ASSUME, functions=_FUNCS, budget_s=(150, 600), per_path_s=(20, 40)),
     Obligation(name="values", fn=values, shards=_value_shards,
                desc="decode(encode(d)) has the same strict content as d for one entity carrying one attribute: 6 attribute-name classes x 15 value kinds, "
                     "and 5 namespace modes (default namespaces at document/bundle level, clashing prefix, bundle-own prefixes) x {document, bundle} with symbolic URIs/prefixes",
